@@ -28,7 +28,7 @@ import (
 )
 
 const c20Machine = "aqs"
-const c20NTor = 2
+const c20NTor = 3
 
 // c20Queue records the calls made on the real queue.
 type c20Queue struct {
@@ -119,6 +119,47 @@ type c20Run struct {
 	// an active connection per saturated torrent (MaxOpenConnectionsPerTorrent is 1)
 	satConn    [c20NTor]*conn.Conn
 	satCleanup [c20NTor]func()
+	// FIFO monitor of the announce tick: the ready list (as implied by the scheduler's calls) before it
+	readyBefore []string
+	wasTick     bool
+}
+
+// c20TickFifo: an announce tick takes a prefix off the ready list (saturated torrents it passes over, then at
+// most one it announces or drops) and re-queues passed-over ones; so for some k the list afterwards is
+// before[k:] followed by a subsequence of before[:k] in the same order.
+func c20TickFifo(before, after []string) bool {
+	for k := 0; k <= len(before); k++ {
+		rest := before[k:]
+		if len(after) < len(rest) {
+			continue
+		}
+		ok := true
+		for i := range rest {
+			if after[i] != rest[i] {
+				ok = false
+				break
+			}
+		}
+		if !ok {
+			continue
+		}
+		// after[len(rest):] must be a subsequence of before[:k]
+		j := 0
+		for _, x := range after[len(rest):] {
+			for j < k && before[j] != x {
+				j++
+			}
+			if j == k {
+				ok = false
+				break
+			}
+			j++
+		}
+		if ok {
+			return true
+		}
+	}
+	return false
 }
 
 func c20Tor(tok string) (int, bool) {
@@ -362,6 +403,8 @@ func (r *c20Run) do(op []string) bool {
 			r.satConn[i], r.satCleanup[i] = nil, nil
 		}
 	case "atick":
+		r.readyBefore = append([]string(nil), r.sh.ready...)
+		r.wasTick = true
 		announceTickEvent{}.apply(w.st)
 		// did the tick break out with a torrent to announce? (last Next result that was not re-queued)
 		last := ""
@@ -414,6 +457,14 @@ func (r *c20Run) do(op []string) bool {
 	calls := r.q.take()
 	for _, c := range calls {
 		r.sh.apply(c)
+	}
+	if r.wasTick {
+		r.wasTick = false
+		if !c20TickFifo(r.readyBefore, r.sh.ready) {
+			// first come first served: the torrents a tick passes over re-enter the queue in their arrival order,
+			// behind the ones it did not reach
+			r.tr.PropFail("tick-requeue-not-fifo", "before="+verifh.List(r.readyBefore), "after="+verifh.List(r.sh.ready))
+		}
 	}
 	fl := ""
 	for i := 0; i < c20NTor; i++ {
@@ -603,7 +654,44 @@ func TestVerif_C20Sched(t *testing.T) {
 			}
 		}
 	}
-	// (b) random long schedules over two torrents
+	// (a4) several torrents saturated at once: three torrents queued in every arrival order, every subset of them
+	// saturated (one active conn each, MaxOpenConnectionsPerTorrent=1), the announce tick that passes over them,
+	// then continuations that show the order in which they come back
+	cont := [][]string{{"op", "atick"}, {"op", "ares", "h0"}, {"op", "ares", "h1"}, {"op", "ares", "h2"},
+		{"op", "unsat", "h0"}, {"op", "unsat", "h1"}, {"op", "unsat", "h2"}}
+	perms := [][3]int{{0, 1, 2}, {0, 2, 1}, {1, 0, 2}, {1, 2, 0}, {2, 0, 1}, {2, 1, 0}}
+	for pi, perm := range perms {
+		for sub := 0; sub < 8; sub++ {
+			for _, rev := range []bool{false, true} {
+				var prefix [][]string
+				for _, i := range perm {
+					prefix = append(prefix, []string{"op", "req", fmt.Sprintf("h%d", i)})
+				}
+				for k := 0; k < 3; k++ {
+					i := k
+					if rev {
+						i = 2 - k
+					}
+					if sub&(1<<uint(i)) != 0 {
+						prefix = append(prefix, []string{"op", "sat", fmt.Sprintf("h%d", i)})
+					}
+				}
+				prefix = append(prefix, []string{"op", "atick"})
+				for _, c1 := range cont {
+					if pi > 0 || rev {
+						c20SchedExec(tr, verifh.Case{Cfg: cfg, Ops: append(prefix[:len(prefix):len(prefix)], c1)})
+						tr.Count("multi_saturated_cases", 1)
+						continue
+					}
+					for _, c2 := range cont {
+						c20SchedExec(tr, verifh.Case{Cfg: cfg, Ops: append(prefix[:len(prefix):len(prefix)], c1, c2)})
+						tr.Count("multi_saturated_cases", 1)
+					}
+				}
+			}
+		}
+	}
+	// (b) random long schedules over three torrents
 	rnd := verifh.NewRand(verifh.Seed(), "c20sched")
 	for n := 0; n < verifh.Scale(300, 8000); n++ {
 		var ops [][]string
@@ -619,17 +707,17 @@ func TestVerif_C20Sched(t *testing.T) {
 				o = []string{"op", "notice", h, "g*"}
 			case x < 54:
 				o = []string{"op", "rm", h}
-			case x < 60:
+			case x < 58:
 				o = []string{"op", "adv", strconv.Itoa([]int{1, 3, 5}[rnd.Intn(3)])}
-			case x < 66:
+			case x < 63:
 				o = []string{"op", "tick"}
-			case x < 82:
+			case x < 79:
 				o = []string{"op", "atick"}
-			case x < 89:
+			case x < 86:
 				o = []string{"op", "ares", h}
-			case x < 93:
+			case x < 89:
 				o = []string{"op", "aerr", h}
-			case x < 95:
+			case x < 94:
 				o = []string{"op", "sat", h}
 			case x < 96:
 				o = []string{"op", "unsat", h}
